@@ -82,3 +82,149 @@ func genArchive(s *src, o *out) {
 	}
 	o.defN("archive_header_extra", hx)
 }
+
+func init() { constGens["archive_mode"] = genArchiveMode }
+
+// c15LenGt reads a comparison `len(<x>) > N` (also `>= N`, `!= 0`) and returns the value K
+// such that the comparison means len > K.
+func c15LenGt(s *src, e ast.Expr, lenOf string, where string) int64 {
+	b, ok := e.(*ast.BinaryExpr)
+	if !ok || s.text(b.X) != "len("+lenOf+")" {
+		die("%s: expected a comparison of len(%s), found `%s`", where, lenOf, s.text(e))
+	}
+	n := s.evalInt(b.Y, nil, 0)
+	switch b.Op {
+	case token.GTR:
+		return n
+	case token.GEQ:
+		if n >= 1 {
+			return n - 1
+		}
+	case token.NEQ:
+		if n == 0 {
+			return 0
+		}
+	}
+	die("%s: comparison `%s` is not of the form len > K", where, s.text(e))
+	return 0
+}
+
+// genArchiveMode reads who decides that a root travels as an archive stream:
+//   - archiveSourceFiles (archive.go): when the scan list is grouped at all
+//   - marshalSourceFile (comm.go): the `archive` flag of the NAME record
+//   - sendFileNameV3 (append.go): when the sender creates the archive reader
+//   - createDirOrFile / newArchiveWriter (transfer.go, archive.go): what the receiver does with the flag
+func genArchiveMode(s *src, o *out) {
+	// archiveSourceFiles: if t.transferConfig.Overwrite || t.transferConfig.Protocol < kProtocolVersion4 || len(sourceFiles) == 0 { return sourceFiles }
+	minProto := int64(-1)
+	f := s.fn("trzszTransfer.archiveSourceFiles")
+	if len(f.Body.List) > 0 {
+		if is, ok := f.Body.List[0].(*ast.IfStmt); ok {
+			want := "t.transferConfig.Overwrite || t.transferConfig.Protocol < kProtocolVersion4 || len(sourceFiles) == 0"
+			if s.text(is.Cond) == want && len(is.Body.List) == 1 && s.text(is.Body.List[0]) == "return sourceFiles" {
+				minProto = s.evalInt(s.consts["kProtocolVersion4"], nil, 0)
+			}
+		}
+	}
+	if minProto < 0 {
+		die("archiveSourceFiles: the guard `Overwrite || Protocol < kProtocolVersion4 || len == 0 -> unchanged` has changed")
+	}
+	o.defN("archive_min_protocol", minProto)
+
+	// marshalSourceFile: f.Archive = len(f.SubFiles) > K
+	flagGt := int64(-1)
+	ast.Inspect(s.fn("sourceFile.marshalSourceFile").Body, func(n ast.Node) bool {
+		as, ok := n.(*ast.AssignStmt)
+		if ok && len(as.Lhs) == 1 && len(as.Rhs) == 1 && s.text(as.Lhs[0]) == "f.Archive" {
+			if flagGt >= 0 {
+				die("marshalSourceFile: f.Archive assigned twice")
+			}
+			flagGt = c15LenGt(s, as.Rhs[0], "f.SubFiles", "marshalSourceFile")
+		}
+		return true
+	})
+	if flagGt < 0 {
+		die("marshalSourceFile: `f.Archive = len(f.SubFiles) > K` not found")
+	}
+	o.defN("archive_flag_gt", flagGt)
+
+	// sendFileNameV3: if len(srcFile.SubFiles) > K { file, err := t.newArchiveReader(srcFile) ... }  before  if srcFile.IsDir
+	sendGt, sendOrder := int64(-1), false
+	seenArchive := false
+	for _, st := range s.fn("trzszTransfer.sendFileNameV3").Body.List {
+		is, ok := st.(*ast.IfStmt)
+		if !ok || is.Init != nil {
+			continue
+		}
+		if b, ok := is.Cond.(*ast.BinaryExpr); ok && s.text(b.X) == "len(srcFile.SubFiles)" {
+			if len(is.Body.List) == 0 || s.text(is.Body.List[0]) != "file, err := t.newArchiveReader(srcFile)" {
+				die("sendFileNameV3: the branch on len(srcFile.SubFiles) no longer opens the archive reader")
+			}
+			sendGt = c15LenGt(s, is.Cond, "srcFile.SubFiles", "sendFileNameV3")
+			seenArchive = true
+		} else if s.text(is.Cond) == "srcFile.IsDir" {
+			sendOrder = seenArchive
+		}
+	}
+	if sendGt < 0 || !sendOrder {
+		die("sendFileNameV3: expected `if len(srcFile.SubFiles) > K {archive reader}` followed by `if srcFile.IsDir {no data}`")
+	}
+	o.defN("archive_send_gt", sendGt)
+
+	// sendFiles: if t.transferConfig.Protocol >= kProtocolVersion3 { ... t.sendFileNameV3(...) } else { ... t.sendFileName(...) }
+	v3 := int64(-1)
+	ast.Inspect(s.fn("trzszTransfer.sendFiles").Body, func(n ast.Node) bool {
+		is, ok := n.(*ast.IfStmt)
+		if ok && s.text(is.Cond) == "t.transferConfig.Protocol >= kProtocolVersion3" && len(is.Body.List) == 1 &&
+			s.text(is.Body.List[0]) == "file, remoteName, err = t.sendFileNameV3(srcFile, progress)" {
+			if eb, ok := is.Else.(*ast.BlockStmt); ok && len(eb.List) == 1 && s.text(eb.List[0]) == "file, remoteName, err = t.sendFileName(srcFile, progress)" {
+				v3 = s.evalInt(s.consts["kProtocolVersion3"], nil, 0)
+			}
+		}
+		return true
+	})
+	if v3 < 0 {
+		die("sendFiles: the choice between sendFileNameV3 (protocol >= 3) and sendFileName has changed")
+	}
+	o.defN("archive_v3_protocol", v3)
+
+	// legacy sendFileName (protocol < 3) never streams an archive: it must not mention SubFiles
+	if f := s.fn("trzszTransfer.sendFileName"); f != nil {
+		ast.Inspect(f.Body, func(n ast.Node) bool {
+			if id, ok := n.(*ast.Ident); ok && id.Name == "SubFiles" {
+				die("sendFileName (legacy) now looks at SubFiles: the archive-mode model no longer covers it")
+			}
+			return true
+		})
+	}
+
+	// createDirOrFile: `if srcFile.Archive { newArchiveWriter }` comes before `if srcFile.IsDir { directory, no file }`
+	flagFirst := false
+	seenFlag := false
+	for _, st := range s.fn("trzszTransfer.createDirOrFile").Body.List {
+		is, ok := st.(*ast.IfStmt)
+		if !ok {
+			continue
+		}
+		switch s.text(is.Cond) {
+		case "srcFile.Archive":
+			if len(is.Body.List) == 0 || s.text(is.Body.List[0]) != "file, err := t.newArchiveWriter(path, srcFile, fullPath)" {
+				die("createDirOrFile: the Archive branch no longer opens the archive writer")
+			}
+			seenFlag = true
+		case "srcFile.IsDir":
+			flagFirst = seenFlag
+		}
+	}
+	if !flagFirst {
+		die("createDirOrFile: expected `if srcFile.Archive {...}` before `if srcFile.IsDir {...}`")
+	}
+	// newArchiveWriter refuses a record that is flagged archive but is not a directory
+	needDir := int64(0)
+	if l := s.fn("trzszTransfer.newArchiveWriter").Body.List; len(l) > 0 {
+		if is, ok := l[0].(*ast.IfStmt); ok && s.text(is.Cond) == "!srcFile.IsDir" {
+			needDir = 1
+		}
+	}
+	o.defN("archive_writer_needs_dir", needDir)
+}
